@@ -145,6 +145,12 @@ func init() {
 			}
 			cases = append(cases, specCase(cl[i]+":spec", "specEnd 10000 "+h, okErr(impl, false)))
 		}
+		for _, d := range byteNeighbourhood([]string{"-1.5e+3", " 0.25E-2,", "[1,2.0e1]", "{\"a\":\"b\\n\"}", "\"\\u00e9\" ", "true", " null"}) {
+			h := hx(d)
+			impl := runAPI("SkipValue", []string{h, "-"})
+			cases = append(cases, Case{Line: "SkipValue " + h + " -", Impl: impl, Class: "neighbourhood"})
+			cases = append(cases, specCase("neighbourhood:spec", "specEnd 10000 "+h, okErr(impl, false)))
+		}
 		for _, d := range depthDocs() {
 			h := hx(d)
 			impl := runAPI("SkipValue", []string{h, garbageStack})
@@ -350,6 +356,12 @@ func init() {
 			h := hx(pre)
 			cases = append(cases, apiCase("token:eof", "NextToken", h), apiCase("token:eof", "NextTokenType", h), specCase("token:spec", "specToken "+h, tokenProjection(h)))
 		}
+		for _, d := range byteNeighbourhood([]string{"null", " true", "false ", "\n\tnull", " \r", "[1]", "\"x\""}) {
+			h := hx(d)
+			cases = append(cases, apiCase("token:neighbourhood", "NextToken", h), apiCase("token:neighbourhood", "NextTokenType", h),
+				apiCase("literal:neighbourhood", "ReadNull", h), apiCase("literal:neighbourhood", "ReadBool", h), apiCase("ws:neighbourhood", "countWhitespace", h))
+			cases = append(cases, specCase("token:spec", "specToken "+h, tokenProjection(h)))
+		}
 		for _, pre := range prefixes {
 			for b := 0; b < 256; b++ {
 				d := append(append([]byte(nil), pre...), byte(b))
@@ -499,6 +511,26 @@ var intTypes = []intType{
 	{"ReadUint", "DecodeUint", "0", "18446744073709551615", false},
 }
 
+// byteNeighbourhood: every input that differs from a seed by one byte replaced or one byte inserted (all 256 values at every
+// position, both ends included). Hand-written readers decide byte by byte; this reaches every comparison once per position.
+func byteNeighbourhood(seeds []string) (out [][]byte) {
+	for _, sd := range seeds {
+		b := []byte(sd)
+		for i := 0; i <= len(b); i++ {
+			for v := 0; v < 256; v++ {
+				ins := append(append(append([]byte(nil), b[:i]...), byte(v)), b[i:]...)
+				out = append(out, ins)
+				if i < len(b) && b[i] != byte(v) {
+					rep := append([]byte(nil), b...)
+					rep[i] = byte(v)
+					out = append(out, rep)
+				}
+			}
+		}
+	}
+	return
+}
+
 // wsRuns: long runs of whitespace, pure and mixed, of the lengths around which block-wise skipping changes behaviour.
 func wsRuns() (out [][]byte) {
 	for _, n := range []int{4, 7, 8, 9, 15, 16, 17, 24, 31, 32, 33, 63, 64, 65, 100} {
@@ -578,6 +610,7 @@ func init() {
 	suites["C05"] = func(c *Ctx) (string, error) {
 		var cases []Case
 		pool := intInputs(c)
+		pool = append(pool, byteNeighbourhood([]string{"0", "-0", " 12", "-7 ", "\t-2147483648", "4294967295,", "-9223372036854775808"})...)
 		for i, d := range pool {
 			h := hx(d)
 			for _, t := range intTypes {
